@@ -693,18 +693,23 @@ if __name__ == "__main__":
 def check(monitors, seed, tier, n_quick=9, n_thorough=60):
     """Run the family and the given monitors; returns a dict to be merged into a property's result."""
     res, broken = run_family(seed, tier, n_quick, n_thorough)
-    violations = []
+    violations = []; notes = []
+    def evaluate(sc, r):
+        out = []
+        for mon in monitors: out += mon(sc, r)
+        return out
     for sc, r in res:
         if getattr(r, "error", None): continue
-        for mon in monitors:
-            violations += mon(sc, r)
+        vs, note = e2e.confirm(sc, r, evaluate, os.path.join(vlib.BUILD, "e2e-run", f"mix-{seed}"))
+        violations += vs
+        if note: notes.append(note)
     n_tests, n_procs, kinds = summarize(res) if res else (0, 0, {})
     samples = []
     for sc, r in res[:2]:
         samples.append({"scenario": sc.name, "tests": [(t["bin"], t["name"], [a["kind"] for a in t["attempts"]], "ignored" if t["ignored"] else "") for t in sc.meta["tests"]],
                         "retries": sc.meta["retries"], "test_threads": sc.meta["threads"], "exit": r.exit, "events": len(r.events), "processes": len([p for p in r.procs if p.get("start")])})
     return {"e2e_runs": len(res), "e2e_tests": n_tests, "e2e_processes": n_procs, "dist": {"e2e:" + k: v for k, v in kinds.items()},
-            "violations": violations, "broken": broken, "samples": samples,
+            "violations": violations, "broken": broken, "samples": samples, "notes": notes,
             "rule": "end-to-end family `mix`: the real cargo-nextest (rebuilt from the working tree) runs 3-7 scripted tests per scenario over 3 binaries in 2 packages, with hostile test names, per-attempt behaviours (pass, fail with code, death by signal, leaked pipe, slow, timeout, output patterns up to 200 kB in various chunkings), retries 0-2 with fixed/exponential delays, 1/2/4 test threads, --run-ignored default/all, hostile inherited environment; monitors recompute the property from the processes' own records"}
 
 
@@ -719,4 +724,5 @@ def merge(base, e2e_part):
     base.setdefault("broken", []).extend(e2e_part["broken"])
     base.setdefault("samples", []).extend(e2e_part["samples"])
     base["rule"] = base.get("rule", "") + " || " + e2e_part["rule"]
+    base.setdefault("notes", []).extend(e2e_part.get("notes", []))
     return base
